@@ -9,7 +9,9 @@ import (
 	"strings"
 	"time"
 
+	"github.com/xuperchain/xupercore/bcs/consensus/tdpos"
 	lpb "github.com/xuperchain/xupercore/bcs/ledger/xledger/xldgpb"
+	"github.com/xuperchain/xupercore/kernel/consensus"
 	"github.com/xuperchain/xupercore/kernel/contract"
 	"github.com/xuperchain/xupercore/lib/xsimrt"
 	pb "github.com/xuperchain/xupercore/protos"
@@ -311,6 +313,15 @@ const c19StakeContract = "$tdpos"
 // $govern_token Lock / UnLock, which accept calls from $tdpos.
 func RegisterC19Stake(n *Node) {
 	reg := n.Ctx.Contract.GetKernRegistry()
+	// the real nominate / revoke / vote / revoke-vote methods of $tdpos
+	cc, ok := consensus.XsimCtx(n.Ctx.Consensus)
+	if !ok {
+		panic("c19: node without pluggable consensus")
+	}
+	cfg := fmt.Sprintf(`{"timestamp":"946684800000000000","proposer_num":"1","period":"3000","alternate_interval":"3000","term_interval":"6000","block_num":"10","vote_unit_price":"1","init_proposer":{"1":[%q]}}`, Accts[0].Addr)
+	if !tdpos.XsimNewStandalone(cc, cfg) {
+		panic("c19: cannot build the tdpos instance that registers the $tdpos methods")
+	}
 	reg.RegisterKernMethod(c19StakeContract, "xsimStake", func(k contract.KContext) (*contract.Response, error) {
 		method := "Lock"
 		if len(k.Args()["unlock"]) > 0 {
@@ -359,7 +370,11 @@ func kreq(contract, method string, args map[string]string) *pb.InvokeRequest {
 // node's state+pool view is justified against op.
 func (r *c19Run) invoke(n *Node, from *Acct, reqs []*pb.InvokeRequest, op *c19Op, m *c19Model) *Violation {
 	pre := c19PoolView(n)
-	resp, err := n.Chain.PreExec(n.BaseCtx(), reqs, from.Addr, []string{from.Addr})
+	auth, signers := []string{from.Addr}, []*Acct(nil)
+	if op.Co != nil && op.Co != from {
+		auth, signers = []string{from.Addr, op.Co.Addr}, []*Acct{from, op.Co}
+	}
+	resp, err := n.Chain.PreExec(n.BaseCtx(), reqs, from.Addr, auth)
 	if err != nil {
 		r.rc.St.Probes["preexec-refused"]++
 		r.rc.St.Probes["refused-"+op.Kind]++
@@ -376,7 +391,30 @@ func (r *c19Run) invoke(n *Node, from *Acct, reqs []*pb.InvokeRequest, op *c19Op
 			op.PropArgs.ID = op.Pid
 		}
 	}
-	tx, err := BuildTx(&TxSpec{From: from, Invoke: resp})
+	sp := &TxSpec{From: from, Invoke: resp}
+	if signers != nil {
+		sp.AuthRequire, sp.Signers = auth, signers
+	}
+	if resp.GasUsed > 0 {
+		// the real $tdpos methods charge a fee: pay it from the initiator's outputs
+		us, _ := n.ListUtxos(from.Addr)
+		got, need := new(big.Int), big.NewInt(resp.GasUsed)
+		for _, u := range us {
+			if got.Cmp(need) >= 0 {
+				break
+			}
+			if u.Frozen == 0 {
+				sp.Inputs = append(sp.Inputs, u)
+				got.Add(got, u.Amount)
+			}
+		}
+		if got.Cmp(need) < 0 {
+			r.rc.St.Probes["fee-not-affordable"]++
+			r.logf("skip (fee %d not affordable)", resp.GasUsed)
+			return nil
+		}
+	}
+	tx, err := BuildTx(sp)
 	if err != nil {
 		panic(fmt.Sprintf("c19: build tx: %v", err))
 	}
@@ -535,6 +573,60 @@ func (r *c19Run) doStep(st *G19Step) *Violation {
 		}
 		r.logf("%s %ss %s", shortAcct(from.Addr), st.Op, amt)
 		return r.invoke(n, from, []*pb.InvokeRequest{kreq(c19StakeContract, "xsimStake", args)}, &c19Op{Kind: st.Op, From: from.Addr, Pid: "stake"}, m)
+	case "tnominate", "trevoke", "tvote", "trevokevote":
+		// the REAL $tdpos kernel methods (a tdpos instance is built beside the single consensus only to
+		// register them). They read the election records through a snapshot at a confirmed height, so the
+		// pool is mined first and the height passed is the tip: every record they see is current.
+		if v := r.mine(n); v != nil {
+			return v
+		}
+		_, m = r.models(n)
+		pv = c19PoolView(n)
+		cand := Accts[c19AcctIdx[abs(st.B)%len(c19AcctIdx)]]
+		amt := c19Amount(st.Amt, pv, from.Addr)
+		if abs(st.Amt)%4 != 3 {
+			// mostly amounts that can succeed: 1, half of what is free, 1000
+			amt = c19Amount([]int{0, 9, 10}[abs(st.Amt)%4], pv, from.Addr)
+		}
+		// three times in four a revocation / vote aims at something the model knows to be outstanding
+		if abs(st.C)%4 != 3 {
+			want := map[string]string{"trevoke": "nom:", "tvote": "nom:", "trevokevote": "tv:"}[st.Op]
+			var pairs [][3]string // candidate, locker, amount
+			for _, k := range sortedKeys(m.Rec) {
+				if want != "" && strings.HasPrefix(k, want) && m.Rec[k].Sign() > 0 {
+					f := strings.Split(k[len(want):], "|")
+					if len(f) == 3 {
+						pairs = append(pairs, [3]string{f[0], f[1], m.Rec[k].String()})
+					}
+				}
+			}
+			if len(pairs) > 0 {
+				p := pairs[abs(st.C)/4%len(pairs)]
+				for _, a := range Accts {
+					if a.Addr == p[0] {
+						cand = a
+					}
+					if a.Addr == p[1] && st.Op != "tvote" {
+						from = a
+					}
+				}
+				if st.Op == "trevokevote" && abs(st.Amt)%2 == 0 {
+					amt = p[2]
+				}
+			}
+		}
+		args := map[string]string{"candidate": cand.Addr, "height": fmt.Sprint(n.L.GetMeta().TrunkHeight), "amount": amt}
+		method := map[string]string{"tnominate": "nominateCandidate", "trevoke": "revokeNominate", "tvote": "voteCandidate", "trevokevote": "revokeVote"}[st.Op]
+		pid := "nom:" + cand.Addr
+		if st.Op == "tvote" || st.Op == "trevokevote" {
+			pid = "tv:" + cand.Addr
+		}
+		op := &c19Op{Kind: st.Op, From: from.Addr, Pid: pid}
+		if st.Op == "tnominate" {
+			op.Co = cand
+		}
+		r.logf("%s %s candidate %s amount %s", shortAcct(from.Addr), method, shortAcct(cand.Addr), amt)
+		return r.invoke(n, from, []*pb.InvokeRequest{kreq(c19StakeContract, method, args)}, op, m)
 	case "lock", "unlock":
 		// direct calls from outside: no proposal / vote / nomination operation
 		victim := r.receiver(st.B)
